@@ -11,7 +11,7 @@ use crate::{
 
 use async_trait::async_trait;
 use futures::channel::{mpsc, oneshot};
-use futures::{select, FutureExt, StreamExt};
+use futures::{select_biased, FutureExt, StreamExt};
 use parking_lot::Mutex;
 
 use std::collections::HashMap;
@@ -111,7 +111,11 @@ impl MultiPeerBackend for PubSocketBackend {
         async_rt::task::spawn(async move {
             let mut stop_receiver = stop_receiver.fuse();
             loop {
-                select! {
+                // Biased: the stop signal is looked at first. It fires when this
+                // connection's entry was removed or replaced (a peer coming back under
+                // its identity); the end of the old connection must then not
+                // unregister the peer's new connection.
+                select_biased! {
                      _ = stop_receiver => {
                          break;
                      },
